@@ -394,6 +394,52 @@ std::string run_case(Src& s, CaseInfo& ci)
       if (ff2 < first_fail)
         failure = ci.desc + strf(": a larger stack (%u) overflows earlier (depth %d) than this one (depth %d)", size + 1, ff2, first_fail);
     }
+    if (failure.empty() && first_fail >= 0)
+    {
+      // the natural reaction to ERROR_EXEC_STACK_OVERFLOW: raise YR_CONFIG_STACK_SIZE and scan again with the
+      // same scanner - the condition that overflowed must now evaluate, and lowering the limit again must
+      // bring the documented error back
+      static const char* INNER2[] = {"1", "1", "1",
+                                     "math.to_number(for any k, v in tests.string_dict : (v == \"foo\"))",
+                                     "math.to_number(for any v in tests.integer_array : (v == 2))",
+                                     "math.to_number(for any i in (0..3) : (i == 2))",
+                                     "math.to_number(for any of them : ($))"};
+      std::string e = INNER2[shape];
+      for (int d = 0; d < first_fail; d++)
+        e = shape == 1 ? "1 | (2 & (" + e + "))" : shape == 2 ? "uint8(0) + (" + e + ")" : "1 + (" + e + ")";
+      ys_set_config(0, size);
+      Rules R;
+      CompileResult cr = compile_simple("import \"math\"\nimport \"tests\"\nrule r { strings: $a = \"x\" condition: " + e + " >= 0 or $a or true }", R);
+      int e2 = 0;
+      ys_scanner* sc = cr.errors ? nullptr : ys_scanner_new(R.r, &e2);
+      if (sc)
+      {
+        auto scan_rc = [&](std::string* tr) {
+          ys_scan_opts so;
+          memset(&so, 0, sizeof so);
+          char* t = nullptr;
+          int rc = ys_scan(R.r, sc, (const uint8_t*) "x", 1, &so, &t);
+          *tr = t;
+          ys_free(t);
+          return rc;
+        };
+        std::string t1, t2, t3;
+        int rc1 = scan_rc(&t1);
+        ys_set_config(0, size * 4 + 16);
+        int rc2 = scan_rc(&t2);
+        ys_set_config(0, size);
+        int rc3 = scan_rc(&t3);
+        ys_scanner_free(sc);
+        ci.desc += strf("; one scanner, depth %d: stack %u -> rc %d, stack %u -> rc %d, stack %u again -> rc %d", first_fail, size, rc1, size * 4 + 16, rc2, size, rc3);
+        if (rc1 != 25)
+          failure = ci.desc + ": the first scan should overflow";
+        else if (rc2 != 0 || t2.find("M default:r") == std::string::npos)
+          failure = ci.desc + ": after raising the stack size the same scanner should evaluate the condition";
+        else if (rc3 != 25)
+          failure = ci.desc + ": after lowering the stack size again the same scanner should report ERROR_EXEC_STACK_OVERFLOW";
+      }
+      ys_set_config(0, 16384);
+    }
     at_boundary = true;
     break;
   }
@@ -492,6 +538,43 @@ std::string run_case(Src& s, CaseInfo& ci)
       failure = ci.desc + strf(": ERROR_SCAN_TIMEOUT only after %.1f s", o.scan_seconds);
     else if (o.scan_seconds > timeout + 3)
       ci.classes.push_back("inconclusive:timeout-later-than-deadline+3s(load)");
+    if (failure.empty() && s.coin(35))
+    {
+      // the timeout counts from the start of the scan, also when the scan is delivered in pieces: ten
+      // blocks, each reported NOT_READY once, the caller resuming every 300-400 ms, timeout 1 s
+      Rules R;
+      CompileResult cr = compile_simple("rule r { strings: $a = \"abc\" condition: #a >= 0 }", R);
+      int e2 = 0;
+      ys_scanner* sc = cr.errors ? nullptr : ys_scanner_new(R.r, &e2);
+      if (sc)
+      {
+        bytes d = bytes(1000, 'x') + "abc";
+        std::vector<uint32_t> sizes(10, 100);
+        sizes[9] = (uint32_t) d.size() - 900;
+        ys_scan_opts so;
+        memset(&so, 0, sizeof so);
+        so.entry = YS_SCAN_BLOCKS;
+        so.nblocks = 10;
+        so.block_sizes = sizes.data();
+        so.notready_mask = 0x55555555555ULL & ~1ULL;  // every second iterator call from the 3rd on
+        so.timeout = 1;
+        so.resume_sleep_us = (int) s.range(300000, 400000);
+        char* t = nullptr;
+        double t0 = now_s();
+        int rc = ys_scan(R.r, sc, (const uint8_t*) d.data(), d.size(), &so, &t);
+        double wall = now_s() - t0;
+        std::string tr = t;
+        ys_free(t);
+        ys_scanner_free(sc);
+        size_t resumes = 0, pos = 0;
+        while ((pos = tr.find("\nB ", pos)) != std::string::npos) resumes++, pos += 3;
+        ci.desc += strf("; then a 10-block scan resumed every %d us with timeout 1 s: rc %d after %.2f s and %zu resumptions", so.resume_sleep_us, rc, wall, resumes);
+        if (rc == 0 && wall > 2.5)
+          failure = ci.desc + ": an incremental scan with a 1 s timeout ran to completion although it took more than twice that long";
+        else if (rc != 0 && rc != 26)
+          failure = ci.desc + ": unexpected return code";
+      }
+    }
     at_boundary = true;
     break;
   }
